@@ -1291,6 +1291,16 @@ func vHubGen(e *vEnv, r *vRand) []vCase {
 		}
 		cases = append(cases, vCase{Ops: g.ops, Tags: tags})
 	}
+	// a battery of short cases that are nothing but one race each: windows of a few instructions need many tries
+	for i := e.scale(40, 300); i > 0; i-- {
+		rr := r.fork()
+		g := &vGen{r: rr, connOpen: map[int]bool{}, connSess: map[int]int{}, sess: map[int]*vGenSess{}, nextSym: 1,
+			rooms: []string{"roomA", "roomB"}, users: []string{"", "alice", "bob"}, rsids: []string{"nc1", "nc2", "nc3"}, nb: 2}
+		if rr.chance(1, 2) {
+			g.opHello(1, rr.intn(g.nb), "c", g.someUser(), 0, 0)
+		}
+		cases = append(cases, vCase{Ops: g.ops, Tags: []string{"race-only", "finale:" + g.finale()}})
+	}
 	return cases
 }
 
